@@ -182,6 +182,8 @@ type Consult struct {
 	Supervisor string
 	Child      string
 	Decision   string
+	TraceIdx   int
+	Children   []string // Children() reported to the decision maker
 }
 
 type probeShared struct {
@@ -428,7 +430,12 @@ func (w *World) strategy(supervisor, kind string, decisions []string) vivid.Supe
 		if c := sc.Child().First(); c != nil {
 			child = c.GetPath()
 		}
-		w.Consults = append(w.Consults, Consult{T: w.Now(), Supervisor: supervisor, Child: child, Decision: d})
+		var kids []string
+		for _, k := range sc.Children() {
+			kids = append(kids, k.GetPath())
+		}
+		sort.Strings(kids)
+		w.Consults = append(w.Consults, Consult{T: w.Now(), Supervisor: supervisor, Child: child, Decision: d, TraceIdx: len(w.Trace), Children: kids})
 		w.mu.Unlock()
 		return decisionOf(d), "verif:" + d
 	})
